@@ -53,6 +53,27 @@ TECH = {
 }
 
 
+# obligations added / adopted in round 7 (session 5), appended to the technique text of the property
+ROUND7 = {
+    "C01": "adopted (round 7): both directions of every ordering edge written by register (C02), refusal of a frozen manager before anything is removed (C17)",
+    "C02": "adopted (round 7): every index reset before re-registration, rebuild only through register (C03)",
+    "C04": "adopted (round 7): the zero-division guard covers the division only (C18)",
+    "C05": "adopted (round 7): a definition is replaced by unregister + register, never by swapping task.expr (C01)",
+    "C06": "adopted (round 7): the hash is taken from the fields as stored (C20 field-assigned-by-one-cinit)",
+    "C08": "round 7: name spans with a named column look both names up in that column",
+    "C09": "round 7: target values read after the action loop was passed (must-pass-through from entry)",
+    "C10": "adopted (round 7): reload restores the knob flags from the vary column (C09), x -> knob map works on a copy (C16)",
+    "C11": "round 7: owner recognised by identity (condition terms of _check_root_owner), overwrite defaults, reference path for any BaseRef",
+    "C12": "round 7: no __reduce__ of a reference class raises",
+    "C13": "adopted (round 7): every _get_value is Python's operator on the evaluated operands (C04.R1/R2)",
+    "C14": "round 7: no store into a selector argument or an uncopied view of it; adopted: single selector implementation (C08)",
+    "C15": "round 7: start point logged on every path of its helper; adopted: target values read at the evaluated point (C09)",
+    "C16": "round 7: float array before the in-place division by the weights; adopted: solver seeded from current knobs (C09)",
+    "C18": "round 7: set_value never evaluates its target; housekeeping methods change no definition; adopted: no C function that cannot carry an exception (C20)",
+    "C20": "round 7: decorator scan for C signatures that drop exceptions; adopted: full read sets (C05)",
+}
+
+
 def main():
     props = [json.loads(l) for l in (VERIF / "properties.jsonl").read_text().splitlines() if l.strip()]
     checks = []
@@ -80,7 +101,7 @@ def main():
             },
             "level_note": "Trusted base: CPython ast, the xsa engine (program model, CFG, dataflow), networkx, the Python "
                           "data-model tables in xsa. Assumes: " + "; ".join(meta.get("assumptions", [])),
-            "technique": "static analysis: " + TECH[pid] + ". Engine: " + COMMON,
+            "technique": "static analysis: " + TECH[pid] + ("; " + ROUND7[pid] if pid in ROUND7 else "") + ". Engine: " + COMMON,
         })
     manifest = {
         "version": 1,
